@@ -174,6 +174,35 @@ func (ps *Process) Kill() error { return ps.Signal(os.Kill) }
 // IgnoreInterrupt makes the simulated child ignore SIGINT / SIGTERM.
 func (p *Proc) IgnoreInterrupt() { p.ignoreSoft = true }
 
+// ProcessState mirrors the part of *os.ProcessState callers look at.
+type ProcessState struct {
+	code   int
+	signal string
+	pid    int
+}
+
+func (ps *ProcessState) ExitCode() int {
+	if ps == nil {
+		return -1
+	}
+	if ps.signal != "" {
+		return -1
+	}
+	return ps.code
+}
+func (ps *ProcessState) Success() bool { return ps != nil && ps.signal == "" && ps.code == 0 }
+func (ps *ProcessState) Exited() bool  { return ps != nil && ps.signal == "" }
+func (ps *ProcessState) Pid() int      { return ps.pid }
+func (ps *ProcessState) String() string {
+	if ps == nil {
+		return "<nil>"
+	}
+	if ps.signal != "" {
+		return "signal: " + ps.signal
+	}
+	return fmt.Sprintf("exit status %d", ps.code)
+}
+
 // ExitError mirrors *exec.ExitError.
 type ExitError struct {
 	Code   int
@@ -200,9 +229,10 @@ type Cmd struct {
 	Stderr io.Writer
 	Err    error
 
-	WaitDelay time.Duration
-	Cancel    func() error
-	Process   *Process
+	WaitDelay    time.Duration
+	Cancel       func() error
+	Process      *Process
+	ProcessState *ProcessState
 
 	ctx   context.Context
 	proc  *Proc
@@ -366,11 +396,13 @@ func (c *Cmd) Wait() error {
 		p.waiter = w.cur
 		w.block("wait for child " + p.t.id)
 	}
+	c.ProcessState = &ProcessState{code: p.rec.Exit, pid: c.Process.Pid}
 	if p.rec.Killed {
+		c.ProcessState.signal = "killed"
 		if p.signalName != "" {
-			return &ExitError{Code: -1, Signal: p.signalName}
+			c.ProcessState.signal = p.signalName
 		}
-		return &ExitError{Code: -1, Signal: "killed"}
+		return &ExitError{Code: -1, Signal: c.ProcessState.signal}
 	}
 	if p.rec.Exit != 0 {
 		return &ExitError{Code: p.rec.Exit}
